@@ -42,15 +42,18 @@ func init() {
 			// paced writer (one segment in flight at a time) against a reader that stalls until the
 			// receive window is exactly closed with nothing outstanding: only a later ack with an
 			// unchanged cumulative ack can reopen it
-			mk(func(k *udpCase) {
-				paced := make([]int, 4300)
-				for j := range paced {
-					paced[j] = 16
-				}
-				k.Multiplex = 1
-				k.ClientPattern, k.ServerPattern = patJSON(nil), patJSON(nil)
-				k.Scripts = []sim.Script{{ClientWrites: paced, ServerWrites: []int{10}, MaxRead: 65536, ServerStallMs: 9000, WriteGapUs: 1000}}
-			})
+			for _, pg := range [][2]int{{1000, 9000}, {2500, 14000}} {
+				pg := pg
+				mk(func(k *udpCase) {
+					paced := make([]int, 4300)
+					for j := range paced {
+						paced[j] = 16
+					}
+					k.Multiplex = 1
+					k.ClientPattern, k.ServerPattern = patJSON(nil), patJSON(nil)
+					k.Scripts = []sim.Script{{ClientWrites: paced, ServerWrites: []int{10}, MaxRead: 65536, ServerStallMs: pg[1], WriteGapUs: pg[0]}}
+				})
+			}
 			// a long, bandwidth-limited path (300 ms round trip, 1 MB/s) with single losses
 			mk(func(k *udpCase) {
 				k.Faults.LatencyMs = 150
